@@ -617,6 +617,13 @@ def suite(prop, rng, tier):
             if i % 2:
                 sd = sd - sd % 5 + 3          # every second one under the operand-determined asymmetric kind
             cases.append(rand_history(rng, rng.randint(6, 24), menu_d, adv=1, seed=sd, ncls=rng.choice([3, 6, 9])).line())
+        # the entry API scans twice (entry(), then VacantEntry::insert): an == whose answers CHANGE BETWEEN CALLS
+        # (alternating, lying now and then) can make the two scans disagree -- entry-heavy histories under those kinds
+        menu_e = MENU_MAP_CORE + scale(MENU_MAP_ENTRY, 5)
+        for i in range(N(200, 2500)):
+            sd = rng.getrandbits(48)
+            sd = sd - sd % 5 + (2 if i % 2 else 4)
+            cases.append(rand_history(rng, rng.randint(8, 30), menu_e, adv=1, seed=sd, ncls=rng.choice([2, 3, 6])).line())
     elif prop == "C18":
         rnd(MENU_MAP_CORE + scale(MENU_MAP_UNCHECKED, 3), N(300, 5000), (10, 40))
         # insert_unchecked under a MISBEHAVING == (non-reflexive, always / never equal, alternating): its precondition
